@@ -73,7 +73,9 @@ def cases(draw, tier):
             if flag:
                 spec[key] = [{"src": "t%d" % j, "of": i} for i in ids]
         operands.append(spec)
-    overlap = draw(st.sampled_from([False] * 6 + [True])) and k >= 2
+    overlap = draw(st.sampled_from([False] * 6 + [True, "same-object"]))
+    if overlap is True and k < 2:
+        overlap = False
     return {"operands": operands, "axis": axis, "entry": entry,
             "overlap": overlap}
 
@@ -88,7 +90,7 @@ def check(case, rec):
     axis = case["axis"]
     inv = "observation" if axis == "sample" else "sample"
     specs = [dict(s) for s in case["operands"]]
-    if case["overlap"]:
+    if case["overlap"] is True:
         # make the last operand share its first concat-axis ID with the first
         key = "samp" if axis == "sample" else "obs"
         s = specs[-1]
@@ -100,6 +102,13 @@ def check(case, rec):
     rec.cls("k:%d" % len(tabs))
 
     def run():
+        if case["overlap"] == "same-object":
+            # the very same table listed again overlaps with itself
+            if case["entry"] == "method_single":
+                return tabs[0].concat(tabs[0], axis=axis)
+            if case["entry"] == "function":
+                return biom.concat(list(tabs) + [tabs[0]], axis=axis)
+            return tabs[0].concat(list(tabs[1:]) + [tabs[0]], axis=axis)
         if case["entry"] == "method_single":
             return tabs[0].concat(tabs[1], axis=axis)
         arg = list(tabs) if case["entry"] == "function" else list(tabs[1:])
@@ -120,7 +129,7 @@ def check(case, rec):
         try:
             run()
         except DisjointIDError:
-            rec.cls("overlap-refused")
+            rec.cls("overlap-refused:%s" % case["overlap"])
             rec.nt(True)
             return
         raise Violation("overlap-not-refused", "concat of operands sharing "
